@@ -23,6 +23,16 @@ def bind (r : Res α) (f : α → Res β) : Res β :=
   | .ok a => f a
   | .err e => .err e
   | .panic p => .panic p
+/-- success value, or the failure passed through -/
+def mapR (g : α → β) : Res α → Res β
+  | .ok a => .ok (g a)
+  | .err e => .err e
+  | .panic p => .panic p
+def bindR (r : Res α) (f : α → Res β) : Res β :=
+  match r with
+  | .ok a => f a
+  | .err e => .err e
+  | .panic p => .panic p
 instance : Monad Res where
   pure := .ok
   bind := Res.bind
